@@ -319,6 +319,13 @@ func (t *FnTrans) frameCheck(what string, pos token.Pos, reach string) {
 func (t *FnTrans) storeInstr(x *ssa.Store, st *HeapState, reach string) {
 	if !rootIsLocal(x.Addr) {
 		t.frameCheck("store:"+t.srcText(x.Pos()), x.Pos(), reach)
+		if t.allowedMods != nil {
+			for _, c := range t.addrComps(x.Addr) {
+				if !t.allowedMods[c] {
+					t.addObl("frame", "store-outside-modifies:"+c, reach, Formula{Raw: "false"}, x.Pos(), "store to a heap component that is not in the modifies list")
+				}
+			}
+		}
 	}
 	p := t.val(x.Addr)
 	l, ok := t.locOf(p, x.Addr.Type())
